@@ -14,11 +14,11 @@ pub struct DateTime {
 
 impl DateTime {
     pub(crate) fn from_node(node: &Node) -> Result<Option<Self>> {
-        let gps_time_text = node
+        let gps_time_node = node
             .children()
             .find(|n| xml::is_tag(n, "dateTimeValue") && n.attribute("type") == Some("Float"))
-            .invalid_err("Unable to find XML tag 'dateTimeValue' with type 'Float'")?
-            .text();
+            .invalid_err("Unable to find XML tag 'dateTimeValue' with type 'Float'")?;
+        let gps_time_text = xml::text_content(&gps_time_node);
         let gps_time = if let Some(text) = gps_time_text {
             text.parse::<f64>()
                 .invalid_err("Failed to parse inner text of XML tag 'dateTimeValue' as double")?
@@ -30,7 +30,10 @@ impl DateTime {
             xml::is_tag(n, "isAtomicClockReferenced") && n.attribute("type") == Some("Integer")
         });
         let atomic_reference = if let Some(node) = atomic_reference_node {
-            node.text().unwrap_or("0").trim() == "1"
+            xml::text_content(&node)
+                .unwrap_or_else(|| "0".to_string())
+                .trim()
+                == "1"
         } else {
             return Ok(None);
         };
